@@ -20,7 +20,11 @@
      signers : 1..N committee members, 0 the zero id, ids > N non-members.
      data    : fd = 0 no full data attached, 1 = value A, 2 = value B; root = 1 hash(A), 2 hash(B).
    Named deviations:  PartialWindow = FALSE is the pinned code (partial-signature messages are not checked against
-   the clock at all), TRUE the repaired code.  Weaken removes ONE guard (attack configs).                        *)
+   the clock at all; known finding accepted:partial-sig-outside-slot-window), TRUE the repaired code.
+   OverflowGuard = FALSE is the code before 0a8f91d82 (slot 2^62+s passes every clock check as slot s; finding
+   accepted:slot-time-overflow), TRUE the repaired code.  The check asks the real validator which variant it is
+   (driver -mode probe).  Weaken removes ONE guard (attack configs); KnownGaps names the declarative rules the
+   variant under test is known not to enforce.                                                                   *)
 EXTENDS Integers, Sequences, FiniteSets, TLC
 
 CONSTANTS N,             \* committee size (4 or 7)
